@@ -1,6 +1,7 @@
 import Rangers.Basic.Line
 import Rangers.Basic.Hex
 import Rangers.Model.Round
+import Rangers.Model.RoundLife
 import Rangers.Generated.C15Facts
 /-
 Driver for C15. Ops (one per line):
@@ -20,6 +21,7 @@ structure St where
   k : Nat
   early : List (VMsg Sym)
   proc : Option (Proc Sym)
+  life : Option (Life Sym) := none
 
 def nat? (s : String) : Option Nat := s.toNat?
 
@@ -78,6 +80,16 @@ def showState (c : Crypto Sym) (env : Env) (pr : Proc Sym) (strayKey : Data) : S
     | some (a, b) => b01 (sigOk c env.hash a) ++ b01 (sigOk c env.prevRandom b)
   s!"ph={ph} n={rs.number} cp={b01 rs.canProcessed} k={rs.gSign.threshold} g={showEntries c env.hash rs.gSign.witness} r={showEntries c env.prevRandom rs.rSign.witness} grec={b01 (rs.gSign.recovered c)} rrec={b01 (rs.rSign.recovered c)} mgr={b01 pr.inManager} done={b01 pr.done} end={fin} gen={gen} proc={rs.processed.length} fut={rs.future.length} stray={strayCount pr.stray strayKey}"
 
+def verdict? (s : String) : Option Verdict :=
+  if s == "reject" then some .reject else if s == "wait" then some .wait
+  else if s == "accept" then some .accept else none
+
+def showLife (c : Crypto Sym) (env : Env) (l : Life Sym) (strayKey : Data) : String :=
+  let stg := match l.stage with
+    | .noParty => "none" | .r0 => "r0" | .r0ready => "r0ready" | .signing => "signing" | .gone => "gone"
+  let proc := if l.stage = .signing then showState c env l.proc strayKey else "-"
+  s!"st={stg} stored={l.stored.length} pf={l.pfuture.length} k0={b01 l.key0Done} to={b01 l.timedOut} rej={b01 l.rejected} | {proc}"
+
 def filedOf : Wire Sym → Data → Data
   | .ok m, _ => m.blockHash
   | _, d => d
@@ -92,6 +104,54 @@ def step (s : Option St) (line : String) : Option St × String :=
       let k := groupK n
       (some { env := env, members := mem, k := k, early := [], proc := none }, s!"ok k={k}")
     | _, _, _, _, _, _ => (s, "bad-op")
+  | ["life", h, pr, n, ex, mem, pk, k0] =>
+    match nat? h, nat? pr, nat? n, bool? ex, csv? mem, csv? pk, nat? k0 with
+    | some h, some pr, some n, some ex, some mem, some pk, some k0 =>
+      let env : Env := { hash := h, prevRandom := pr, groupSize := n, pkKnown := pk, blockExists := ex,
+                         bindsHash := Rangers.Generated.C15Facts.bindsHash }
+      let k := groupK n
+      (some { env := env, members := mem, k := k, early := [], proc := none, life := some (Life.new k0) }, s!"ok k={k}")
+    | _, _, _, _, _, _, _ => (s, "bad-op")
+  | ["cast", mid, v] =>
+    match s, nat? mid, verdict? v with
+    | some st, some mid, some v =>
+      match st.life with
+      | some l =>
+        let c := symCrypto st.k st.members
+        let l' := l.step c st.env id (.cast mid v)
+        (some { st with life := some l' }, showLife c st.env l' st.env.hash)
+      | none => (s, "bad-op")
+    | _, _, _ => (s, "bad-op")
+  | ["notify", v] =>
+    match s, verdict? v with
+    | some st, some v =>
+      match st.life with
+      | some l =>
+        let c := symCrypto st.k st.members
+        let l' := l.step c st.env id (.notify v)
+        (some { st with life := some l' }, showLife c st.env l' st.env.hash)
+      | none => (s, "bad-op")
+    | _, _ => (s, "bad-op")
+  | "pkt" :: rest =>
+    match s, wire? rest with
+    | some st, some w =>
+      match st.life with
+      | some l =>
+        let c := symCrypto st.k st.members
+        let l' := l.step c st.env id (.packet st.env.blockExists w)
+        (some { st with life := some l' }, showLife c st.env l' (filedOf w st.env.hash))
+      | none => (s, "bad-op")
+    | _, _ => (s, "bad-op")
+  | ["timeout"] =>
+    match s with
+    | some st =>
+      match st.life with
+      | some l =>
+        let c := symCrypto st.k st.members
+        let l' := l.step c st.env id .timeout
+        (some { st with life := some l' }, showLife c st.env l' st.env.hash)
+      | none => (s, "bad-op")
+    | none => (s, "bad-op")
   | "early" :: rest =>
     match s, wire? rest with
     | some st, some (.ok m) =>
